@@ -1,4 +1,5 @@
 import ChythonModel.Model.C15Read
+import ChythonModel.Model.C15Hash
 /-!
 # C15 — witnesses for the defects that were repaired in /repo (informational; never an alarm)
 
@@ -49,5 +50,14 @@ theorem old_sort_key_order_dependent :
   unfold radicalsOld
   rw [h1, h2]
   decide
+
+/-- KNOWN finding (not repaired): `DynamicElement.__hash__` hashes the raw charges; CPython has `hash(-1) == hash(-2)`,
+    so the atom states `-2>-1` and `-1>-2` get the same Morgan seed. Witness reaction on the real code:
+    X–C–X with end atoms `-2>-1` / `-1>-2`: `[C-2>-]C[C->-2]` vs `[C->-2]C[C-2>-]` after swapping the numbers 1 and 3. -/
+theorem atom_hash_collides_minus_one :
+    dynAtomHash ⟨6, none, -2, -1, false, false⟩ = dynAtomHash ⟨6, none, -1, -2, false, false⟩ := by decide +kernel
+
+theorem atom_hash_not_injective :
+    ¬ ((atomStates 6 [-4, -3, -2, -1, 0, 1, 2, 3, 4]).map dynAtomHash).Nodup := by decide +kernel
 
 end ChythonModel.Findings.C15
